@@ -134,12 +134,17 @@ class Expect:
         _, at, args, kwargs = calls[0]
         out.append(("result-is-constructed", ["C08", "C03"], self.interp.term(s, r[1]) == T.F_res(ctor_t, at), ""))
         params = self.order
+        by_param = {(self.fields[n].param or n): n for n in params}
         bound = {}
         for i, a in enumerate(args):
             if i < len(params):
                 bound[params[i]] = ("pos", a)
         for k, a in kwargs.items():
             if k != "**":
+                if k not in by_param:
+                    out.append(("param-name", ["C08"], z3.BoolVal(False), f"keyword {k} is not a constructor parameter"))
+                    continue
+                k = by_param[k]
                 if k in bound:
                     out.append(("binding-once", ["C08"], z3.BoolVal(False), f"parameter {k} passed twice"))
                 bound[k] = ("kw", a)
@@ -318,4 +323,4 @@ def _eq(a, b):
 
 def _literal_safe(d):
     """values for which `type equal and ==` means indistinguishable"""
-    return isinstance(d, (int, str, bytes, bool, float, type(None), tuple, frozenset)) and d == d  # noqa: PLR0124
+    return isinstance(d, (int, str, bytes, bool, float, type(None), tuple, frozenset, range, slice)) and d == d  # noqa: PLR0124
